@@ -118,3 +118,12 @@ Proof.
   - apply equiv_dec_spec. vm_compute. reflexivity.
   - exists (Node 2 [Node 2 [Node 0 []]]). rewrite !D. vm_compute. repeat split; auto; intros E; discriminate E.
 Qed.
+
+(* the sound version of the shortcut for word automata sharing their transitions: start AND final states included *)
+Theorem wshared_incl_sufficient (A B : nfa) :
+  edges A = edges B -> fsub (nstarts A) (nstarts B) -> fsub (nfinals A) (nfinals B) -> wlincl A B.
+Proof.
+  intros E Hs Hf w [p [q [Hp [Hq R]]]]. exists p, q. split; [apply Hs; auto|]. split; [apply Hf; auto|].
+  clear Hp Hq. revert p R. induction w as [|a w IH]; simpl; intros p R; auto.
+  destruct R as [m [He R]]. exists m. split; [rewrite <- E; exact He | apply IH; exact R].
+Qed.
